@@ -652,6 +652,19 @@ func sniffRun(args []string) error {
 			w.write(ev)
 		}
 	}
+	// a byte-order mark in front of the document: whatever is detected, the stream is left at its very start
+	for _, f := range []string{"spdx23", "cdx15"} {
+		data, k, _ := writeDoc(tinyDoc(), trFormats[f], 2)
+		if k != "ok" {
+			continue
+		}
+		for _, prefix := range []string{"\xef\xbb\xbf", "\xef\xbb", "\xfe\xff", " \xef\xbb\xbf"} {
+			ev := sniffObserve(append([]byte(prefix), data...))
+			sid++
+			ev["op"], ev["sid"], ev["src"], ev["want"], ev["preread"] = "SNIFF", sid, fmt.Sprintf("bom-prefix:%s:%x", f, prefix), "", 0
+			w.write(ev)
+		}
+	}
 	// paths that are not readable files: missing, a directory, a dangling symbolic link
 	if dir, err := os.MkdirTemp("", "vh-sniffpath-"); err == nil {
 		os.Symlink(filepath.Join(dir, "nowhere"), filepath.Join(dir, "dangling"))
@@ -667,8 +680,8 @@ func sniffRun(args []string) error {
 	// near-miss declarations
 	vals := func(vs ...any) []any { return vs }
 	bfs := vals(nil, "CycloneDX", "cyclonedx", "CYCLONEDX", "CycloneDX ", "Cyclone", "SPDX", 5, true, "absent")
-	svs := vals("1.3", "1.4", "1.5", "1.2", "1.6", "1.40", " 1.4", "1.4.0", 1.4, nil, "absent")
-	spv := vals("SPDX-2.2", "SPDX-2.3", "SPDX-2.1", "SPDX-2.30", "spdx-2.3", "2.3", "SPDX-3.0", 2.3, nil, "absent")
+	svs := vals("1.3", "1.4", "1.5", "1.2", "1.6", "1.40", " 1.4", "1.4.0", 1.4, nil, "absent", "SPDX-2.3", "2.3")
+	spv := vals("SPDX-2.2", "SPDX-2.3", "SPDX-2.1", "SPDX-2.30", "spdx-2.3", "2.3", "SPDX-3.0", 2.3, nil, "absent", "1.4", "1.5")
 	for _, bf := range bfs {
 		for _, sv := range svs {
 			for _, sp := range spv {
